@@ -15,4 +15,14 @@ TEXTS["C04"] = {
     "note": "Real cluster.go/api code from /repo; consensus is a harness fake over a real dsstate, monitor is the real pubsubmon with all members healthy. Trusts the reference model (oracle decisions listed in the evidence assumptions and DESIGN section 7).",
     "technique": "model-based stateful property testing (rapid state machine) against a reference pinset model",
 }
+TEXTS["C10"] = {
+    "level": "Generated-input search over peersets of 1-8 real Cluster instances, failing peer, survivor health, per-instance re-pinning/follower settings and pinsets; a ping alert is delivered to every survivor from the same initial pinset (then PeerRemove, then the StateSync expiry sweep) and the LogPin/LogUnpin calls and resulting pins of each instance are judged against the statement: under-replicated pins re-homed by exactly one survivor to healthy peers other than the failed one with options preserved, everything else untouched, nothing removed; expired pins unpinned by exactly one member. Exploration level.",
+    "note": "Real alertsHandler/vacatePeer/repinFromPeer/distanceChecker/StateSync/allocate from /repo; consensus state, monitor and tracker are harness fakes. Completion of alert handling is observed through a sentinel alert in Cluster.Alerts().",
+    "technique": "property-based testing with fault injection (peer failure/removal) and an invariant oracle over the per-peer operation logs (rapid)",
+}
+TEXTS["C09"] = {
+    "level": "Model-based stateful testing of metrics.Store + Checker (arrival sequences with expired/invalid/renewed metrics, window wrap, peerset-restricted and global failure checks, alert channel drained after every check) against a model of 'latest metric per (name, peer)' and 'alerted since renewal'; a second leg drives the real pubsubmon.Monitor with changing peersets; a third observes the real Cluster publish loops through a recording monitor and checks that every metric is republished before the previous one expires. Exploration level; the cadence leg is timing based and therefore small and triple-checked.",
+    "note": "Real monitor/metrics, pubsubmon and cluster.go publish loops from /repo. Time policy: +-1 h expiry in the model legs; the cadence leg uses wall-clock margins of at least 400 ms and requires 3 consecutive reproductions.",
+    "technique": "model-based stateful property testing (rapid state machine) plus a timing-margin cadence observation",
+}
 PENDING = {}
